@@ -4,6 +4,8 @@ from fractions import Fraction
 
 ROOT = os.path.dirname(os.path.dirname(os.path.abspath(__file__)))
 sys.path.insert(0, ROOT)
+if os.environ.get("SX_REPO"):        # development aid: analyse a scratch copy of the repository (twin modules AND the plain package come from it)
+    sys.path.insert(0, os.environ["SX_REPO"])
 
 from sx import explore, solve  # noqa: E402
 
